@@ -1,13 +1,16 @@
-\* C47 leg A thorough (safety): contents {p1, p2 (plain), e1 (references the env var)}, config dir files {a,b}, watched
-\* dir file {w}, env values {v1,v2}; every history with <= 5 changes/failing applies and any number of successful
-\* applies.  Leg B: all normal-form histories of <= 4 operations ending with an apply.
+\* C47 leg A thorough (safety): contents {p1, p2 (plain), e1 (references the env var)}, config dir 1 files {a,b}, config
+\* dir 2 file {c}, watched dir file {w}, env {v1, v2, unset}, tolerance off and on; every history with <= 4
+\* changes/failing applies and any number of successful applies.
+\* Leg B: plain histories of <= 4 operations; fault histories (prefix + 6 operations, tolerance off and on).
 SPECIFICATION Spec
 CONSTANTS Contents = {"p1", "p2", "e1"}
-          DirNames = {"a", "b"}
+          TwoDirs = TRUE
           WatNames = {"w"}
-          EnvVals = {"v1", "v2"}
-          Budget = 5
+          EnvVals = {"v1", "v2", "unset"}
+          TolVals = {FALSE, TRUE}
+          Budget = 4
           HistLen = 4
+          FaultLen = 6
 INVARIANT OutputsFollowInputs
-PROPERTIES AppliesSatisfyProperty SummaryAgrees NoReloadOnceSynced
+PROPERTIES AppliesSatisfyProperty SummaryAgrees FailsOnlyUnderFault NoReloadOnceSynced
 CHECK_DEADLOCK FALSE
